@@ -211,6 +211,28 @@ def ipv4_udp_datagram(b):
   })
 
 
+@unit(P, target=PK + "ipv4:ipv4.hdr/checksum/parse (payload of another protocol, any length)")
+def ipv4_datagram_with_a_raw_payload_of_any_length(b):
+  """an IPv4 datagram whose payload is not parsed further (protocol outside icmp / igmp / tcp / udp / gre), 0..1480 bytes - the
+  EMPTY payload included, where total length == header length (added 2026-09-25 after seeded change C14_9 rejected exactly
+  that datagram as malformed)"""
+  proto = b.int("ip.protocol", 0, 255)
+  b.assume(b.And(proto != 1, proto != 2, proto != 6, proto != 17, proto != 47))
+  data = payload_bytes(b, maxlen=1480)
+  n = len(data) if b.mode == "conc" else data.length()
+  ip, f, sip, dip = ip_header(b, proto, data)
+  e, _, (dst, src) = ether(b, 0x0800, ip)
+  total = 20 + n
+  return Case(_rt, [e], calls=cs_spec(b), ensures={
+    "ip_checksum_covers_the_header_with_a_zero_checksum_field": lambda res: cs_calls(b)[0][0] == ip_bytes(f, proto, sip, dip, total, 0),
+    "layout": lambda res: res[0] == eth_bytes(dst, src, 0x0800) + ip_bytes(f, proto, sip, dip, total, cs_calls(b)[0][2]) + data,
+    "the_header_parses_again_and_keeps_the_payload_as_bytes":
+      lambda res: type(res[1].next) is ipv4 and res[1].next.parsed is True and res[1].next.iplen == total
+      and res[1].next.protocol == proto and res[1].next.srcip.toRaw() == sip and res[1].next.dstip.toRaw() == dip
+      and res[1].next.next == data,
+  })
+
+
 def _mk_ipv4_options(hl):
   """IPv4 header with options (hl words): total length and checksum cover the options; parse returns them"""
   @unit(P, target=PK + "ipv4:ipv4.hdr/checksum/parse (header with options)", name="ipv4_with_%d_option_bytes_udp" % ((hl - 5) * 4))
